@@ -129,6 +129,18 @@ CHECKS["C14"] = dict(
     modelled="NTLMAuth.Authenticate and its context cache (symbolic); go-ntlm parsing and NTLMv2 are assumed; cmd/auth/auth.go (gRPC, PAM) "
              "cannot be built here and is not exercised.")
 
+CHECKS["C18"] = dict(
+    text="Theorems over the transcription of config.Load's checks and main()'s fatal paths: a started gateway has none of the six "
+         "unsafe combinations and each of them refuses the start in every environment; every configuration free of them starts "
+         "when the IdP and the Kerberos files are usable; a started instance runs each of the five keys with exactly 32 characters, "
+         "the configured one iff it has length 32 and a fresh one otherwise; tokens minted under one signing key are rejected "
+         "under any other (via the C02 model). The source's fatal conditions, substituted keys, size tests and defaults are "
+         "regenerated as text and pinned by a theorem. The real binary is started on ~90 (quick) / ~500 (thorough) configurations "
+         "given by file, environment or both, and pairs of instances exchange tokens and session cookies.",
+    design="7/C18", technique="Coq proof (decision-logic equivalences, source text pinned by reflexivity) + real-binary correspondence",
+    modelled="config.Load checks and key substitution, NewHandler/InitStore/initOIDC/keytab fatal paths (hand transcription); koanf, "
+             "mapstructure, yaml, env mapping and TLS setup are exercised only.")
+
 NOT_YET = {}
 
 
